@@ -677,3 +677,48 @@ def arity_mismatch(v, T):
     if k == "mio":
         res = res or arity_mismatch(v, a[0])
     return res
+
+
+# ------------------------------------------------------------------------------------
+# aligning a value with a declared type (used by class predicates of findings)
+# ------------------------------------------------------------------------------------
+
+
+def aligned_atoms(v, T):
+    """every (atom type, part of v) pair obtained by reading v against T in every possible way:
+    all union members, containers element-wise whatever the concrete container kind of v
+    (a dict met by a sequence-like type is read as the sequence of its keys, which is what
+    iterating a dict means in Python), MultiInputObj both as a list of X and as a single
+    wrapped X"""
+    k = kind(T)
+    if k == "none":
+        return [(NoneType, v)]
+    if k == "atom":
+        return [(T, v)]
+    a = targs(T)
+    out = []
+    if k == "union":
+        for m in a:
+            out += aligned_atoms(v, m)
+        return out
+    if k == "dict":
+        if isinstance(v, dict):
+            for kk, vv in v.items():
+                out += aligned_atoms(kk, a[0]) + aligned_atoms(vv, a[1])
+        return out
+    seq = isinstance(v, (list, tuple, set, frozenset, dict))
+    if k == "tuple":
+        if isinstance(v, (list, tuple)) and len(v) == len(a):
+            for x, t in zip(v, a):
+                out += aligned_atoms(x, t)
+        elif seq:  # unordered or wrong arity: every element against every component
+            for x in v:
+                for t in a:
+                    out += aligned_atoms(x, t)
+        return out
+    if seq:
+        for x in v:
+            out += aligned_atoms(x, a[0])
+    if k == "mio":
+        out += aligned_atoms(v, a[0])
+    return out
